@@ -9,6 +9,7 @@ import Yae.Gen.Reserved
 import Yae.Gen.Consts
 import Yae.Model.Check
 import Yae.Model.Builtins
+import Yae.Model.Parser
 namespace Yae.GenTie
 
 theorem builtins_tie : Gen.builtinSigs = builtinSigs := by decide
@@ -17,6 +18,17 @@ theorem reserved_tie : Gen.reservedWords = reservedWords := by decide
 
 theorem epsilon_tie : Gen.epsilonBits = epsilonBits := by decide
 
+/-- the binding powers the grammar hard-wires (`oper.BP_COND`, `BP_CALL`, `BP_MEMBER`) and the
+built-in operator table (`oper.BuiltIn()`: kind, float32 power, fixity, in declaration order) -/
+theorem bp_tie : BP.ofF64Bits Gen.bpCond = some bpCond ∧ BP.ofF64Bits Gen.bpCall = some bpCall ∧
+    BP.ofF64Bits Gen.bpMember = some bpMember := by decide
+
+theorem operators_tie :
+    Gen.builtinOperators.map (fun x => (x.1, BP.ofF64Bits x.2.1, x.2.2)) =
+      builtinOps.map (fun o => (o.kind, some o.bp, o.fixity)) := by decide
+
+#print axioms bp_tie
+#print axioms operators_tie
 #print axioms builtins_tie
 #print axioms reserved_tie
 #print axioms epsilon_tie
